@@ -576,6 +576,17 @@ func (e *SpecEnv) binary(v *ast.BinaryExpr) Val {
 			}
 		}
 	}
+	if v.Op == token.EQL || v.Op == token.NEQ {
+		// a struct- or array-typed location evaluates to its ADDRESS: comparing two of them would compare addresses, not values
+		for _, o := range []Val{av, bv} {
+			if sc, ok := o.(Scalar); ok && sc.S == SRef && sc.Ty != nil {
+				switch sc.Ty.Underlying().(type) {
+				case *types.Struct, *types.Array:
+					specFail("comparison of struct/array values is not supported in contracts (compare the fields): %s", exprString(v))
+				}
+			}
+		}
+	}
 	if outer.litType != nil && e.c.ar.bv {
 		// both operands untyped: literals take the hinted type
 		as, aok := av.(Scalar)
